@@ -54,7 +54,7 @@ def parseName (w : String) : Option Str :=
 def findKind (n : String) : Option Kind := Gen.kinds.find? (·.name == n)
 
 /-- the documentation of a kind (hand-written, `Record.docs`); S never looks at the generated setter chain -/
-def docFor (k : Kind) : Record.DocKind := (Record.docOf k.name).getD ⟨k.name, none, []⟩
+def docFor (k : Kind) : Record.DocKind := (Record.docOf k.name).getD ⟨k.name, none, none, none, false, []⟩
 
 /-- a number of C type `t` fits that type -/
 def intFits (t : Char) (n : Int) : Bool :=
@@ -119,7 +119,7 @@ def liveToks (o : Obj) : List Nat := o.toks.filter (· ≠ 0)
 
 /-- `set` of object `ki` through a non-empty name; `sOnly`: the source answers the type 's' only (no character vector).
     A pending allocation failure (`s.fail`) hits the one `realloc` of a string property given a non-empty text. -/
-def setNamed (s : St) (ki : Nat) (ob : Ob) (name : Str) (src : Src) (sOnly : Bool) : St × String :=
+def setNamed (s : St) (ki : Nat) (ob : Ob) (name : Str) (src : Src) (sOnly : Bool) (zeroRet : Bool := false) : St × String :=
   let k := ob.kind
   let handler := findSet k.sets name
   let isString : Bool := match handler with | some e => (match e.act with | .string _ => true | _ => false) | none => false
@@ -148,7 +148,7 @@ def setNamed (s : St) (ki : Nat) (ob : Ob) (name : Str) (src : Src) (sOnly : Boo
     let dm := fmtDump (xdump k out.obj)
     let s' := if ret.isOk then (okAlts.find? (fun r => fmtDump r == dm)).getD ob.s else ob.s
     ({ objs := s.objs.set ki { ob with m := out.obj, s := s' }, tok := s.tok + 1, fail := 0 },
-     line (if ret.isOk then "ok" else "refused") dm (fmtRet ret) alts)
+     line (if ret.isOk then "ok" else "refused") dm (if zeroRet ∧ ret.isOk then "0" else fmtRet ret) alts)
 
 def step (s : St) (w : List String) : St × String :=
   match w with
@@ -196,6 +196,129 @@ def step (s : St) (w : List String) : St × String :=
         if name.isEmpty ∨ b.contains 0 ∨ val.startsWith "zero:" then (s, "bad-op") else
         setNamed s ki ob name (.text (some b)) true
     | _, _, _ => (s, "bad-op")
+  | ["y", "setp", ks, nm, val] =>
+    -- `mpt_object_set_property` with an identifier and a text value: the same as `set`, result code 0
+    match ks.toNat?, parseName nm, parseHex val with
+    | some ki, some name, some b =>
+      match s.objs[ki]? with
+      | none => (s, "bad-op")
+      | some ob =>
+        if name.isEmpty ∨ b.contains 0 ∨ val.startsWith "zero:" then (s, "bad-op") else
+        let r := setNamed { s with fail := 0 } ki ob name (.text (some b)) false true
+        ({ r.1 with fail := s.fail }, r.2)
+    | _, _, _ => (s, "bad-op")
+  | ["y", "lattr", ks, ws, ss, ys, zs] =>
+    match ks.toNat?, ws.toInt?, ss.toInt?, ys.toInt?, zs.toInt? with
+    | some ki, some w, some st, some sy, some sz =>
+      match s.objs[ki]? with
+      | none => (s, "bad-op")
+      | some ob =>
+        let k := ob.kind
+        let vals := [w, st, sy, sz]
+        if (k.name != "line" ∧ k.name != "world") ∨ vals.any (fun x => x < -1 ∨ x > 300) then (s, "bad-op") else
+        let names := ["width", "style", "symbol", "size"].map str
+        -- M: the members and limits of the generated handlers; a value above its limit refuses the whole call
+        let hs := names.map fun n => match findSet k.sets n with | some e => (match e.act with | .lattr f dflt _ hi _ => some (f, dflt, hi) | _ => none) | none => none
+        if hs.any (·.isNone) then (s, "bad-op") else
+        let hv := (hs.filterMap id).zip vals
+        let refuse := hv.any fun ((_, _, hi), v) => v > (hi : Int)
+        let m' := if refuse then ob.m else hv.foldl (fun o ((f, dflt, _), v) => o.put f (.int (if v < 0 then (dflt : Int) else v))) ob.m
+        -- S: each attribute inside its documented limits (a negative value: the default), or refused without change
+        let d := docFor k
+        let sv := names.zip vals |>.map fun (n, v) =>
+          match d.props.find? (·.listed == n) with
+          | some p => (match p.ty with
+            | .ranged _ hi => if v > (hi : Int) then none
+                              else some (n, if v < 0 then (Record.get (defaultsRec k) n).getD (.int 0) else .int v)
+            | _ => none)
+          | none => none
+        let sAlt : List (String × String) :=
+          if sv.all (·.isSome) then [("ok", fmtDump ((sv.filterMap id).foldl (fun r (n, v) => Record.set r n v) ob.s))]
+          else [("refused", fmtDump ob.s)]
+        let dm := fmtDump (xdump k m')
+        let s' := if refuse then ob.s else (sv.filterMap id).foldl (fun r (n, v) => Record.set r n v) ob.s
+        ({ s with objs := s.objs.set ki { ob with m := m', s := s' } },
+         line (if refuse then "refused" else "ok") dm (if refuse then "BadValue" else "0") sAlt)
+    | _, _, _, _, _ => (s, "bad-op")
+  | ["y", "auto", ks, val] =>
+    -- `set` without a name (name == NULL): the value is assigned by its type
+    match ks.toNat? with
+    | some ki =>
+      match s.objs[ki]? with
+      | none => (s, "bad-op")
+      | some ob =>
+        let src? : Option Src :=
+          if val == "null" then some .null
+          else if val == "nullstr" then some (.text none)
+          else match parseHex val with
+            | some b => if b.contains 0 ∨ val.startsWith "zero:" then none else some (.text (some b))
+            | none => none
+        match src? with
+        | none => (s, "bad-op")
+        | some src =>
+          let k := ob.kind
+          let out := k.setAuto ob.m src s.tok
+          -- S: refused without change; no value: the defaults; a text: the property documented to take a text without a name
+          let okAlts : List Record.Rec :=
+            match src with
+            | .null => []
+            | .text none => [defaultsRec k]
+            | .text (some []) => [defaultsRec k]
+            | .text (some v) => (match (docFor k).autoText with | some p => [Record.set ob.s p (.str (some v))] | none => [])
+            | _ => []
+          let alts := ("refused", fmtDump ob.s) :: okAlts.map (fun r => ("ok", fmtDump r))
+          let dm := fmtDump (xdump k out.obj)
+          let s' := if out.ret.isOk then (okAlts.find? (fun r => fmtDump r == dm)).getD ob.s else ob.s
+          ({ objs := s.objs.set ki { ob with m := out.obj, s := s' }, tok := s.tok + 1, fail := s.fail },
+           line (if out.ret.isOk then "ok" else "refused") dm (fmtRet out.ret) alts)
+    | none => (s, "bad-op")
+  | ["y", "autonone", ks, what] =>
+    -- `set` without a name from a source that has the colour / line attribute type but no value: that part is reset
+    match ks.toNat? with
+    | some ki =>
+      match s.objs[ki]? with
+      | none => (s, "bad-op")
+      | some ob =>
+        if what != "colour" ∧ what != "lattr" then (s, "bad-op") else
+        let k := ob.kind
+        let d := docFor k
+        let out := k.setAutoNone ob.m (what == "colour")
+        let dflt := defaultsRec k
+        let alts : List (String × String) :=
+          if what == "colour" then
+            match d.autoColour with
+            | some p => [("ok", fmtDump (Record.set ob.s p ((Record.get dflt p).getD (.int 0))))]
+            | none => [("refused", fmtDump ob.s)]
+          else if d.autoAttr then
+            [("ok", fmtDump (["width", "style", "symbol", "size"].foldl (fun r n => Record.set r (str n) ((Record.get dflt (str n)).getD (.int 0))) ob.s))]
+          else [("refused", fmtDump ob.s)]
+        let dm := fmtDump (xdump k out.obj)
+        let s' := if out.ret.isOk then
+            (if what == "colour" then (match d.autoColour with | some p => Record.set ob.s p ((Record.get dflt p).getD (.int 0)) | none => ob.s)
+             else ["width", "style", "symbol", "size"].foldl (fun r n => Record.set r (str n) ((Record.get dflt (str n)).getD (.int 0))) ob.s)
+          else ob.s
+        ({ s with objs := s.objs.set ki { ob with m := out.obj, s := s' } },
+         line (if out.ret.isOk then "ok" else "refused") dm (fmtRet out.ret) alts)
+    | none => (s, "bad-op")
+  | ["y", "autocopy", ks, js] =>
+    -- `set` without a name from a sibling: the same as the sibling copy
+    match ks.toNat?, js.toNat? with
+    | some ki, some ji =>
+      match s.objs[ki]?, s.objs[ji]? with
+      | some ob, some from_ =>
+        let k := ob.kind
+        if !(k.auto.head? == some .sibling) then (s, "bad-op") else
+        let out := k.copy ob.m from_.kind.name from_.m (ki == ji) s.tok
+        let alts : List (String × String) :=
+          if from_.kind.name == k.name then [("ok owns=1", fmtDump from_.s)] else [("refused", fmtDump ob.s)]
+        let dm := fmtDump (xdump k out.obj)
+        if out.ret.isOk then
+          let shared := ki != ji ∧ (liveToks out.obj).any fun t => (liveToks from_.m).contains t
+          ({ objs := s.objs.set ki { ob with m := out.obj, s := from_.s }, tok := s.tok + out.obj.vals.length + 1, fail := s.fail },
+           line (if shared then "ok owns=0" else "ok owns=1") dm "ok" alts)
+        else (s, line "refused" dm (fmtRet out.ret) alts)
+      | _, _ => (s, "bad-op")
+    | _, _ => (s, "bad-op")
   | ["y", "fail", ns] =>
     match ns.toNat? with
     | some n => if n < 1 ∨ n > 4 then (s, "bad-op") else ({ s with fail := n }, "R ok | C - | I ret=0")
